@@ -256,7 +256,14 @@ func c09QRSymbol(rng *fw.Rand, v int) (c09QRSym, bool) {
 	if rng.Intn(2) == 0 {
 		s.mask = rng.Intn(8)
 	}
-	switch rng.Intn(6) {
+	switch rng.Intn(7) {
+	case 6:
+		s.class = "kanji"
+		n := qrLenIn(rng, v, s.level, qrref.Kanji)
+		if n < 1 {
+			return s, false
+		}
+		s.text, _, s.charset = qrPayload(rng, qrref.Kanji, n)
 	case 0:
 		s.class = "numeric"
 		n := qrLenIn(rng, v, s.level, qrref.Numeric)
@@ -422,7 +429,7 @@ func c09QRCase(r *fw.Rec, v int, nposes int, sample bool) {
 // Data Matrix
 // ---------------------------------------------------------------------------
 
-func c09DMCase(r *fw.Rec, k int, nposes int, sample bool) {
+func c09DMCase(r *fw.Rec, k int, variant int, nposes int, sample bool) {
 	rng := r.Rng
 	syms := dmref.Symbols()
 	s := syms[k]
@@ -438,7 +445,7 @@ func c09DMCase(r *fw.Rec, k int, nposes int, sample bool) {
 	if rng.Intn(3) == 0 {
 		ncw = prev + 1 + rng.Intn(s.DataCW-prev)
 	}
-	switch rng.Intn(4) {
+	switch variant % 4 { // fixed by the case index so that every size is reached a known number of times
 	case 0: // digit runs
 		class = "digit-runs"
 		b := make([]byte, 2*ncw)
@@ -450,7 +457,7 @@ func c09DMCase(r *fw.Rec, k int, nposes int, sample bool) {
 			b[i] = d
 		}
 		content = string(b)
-	case 1:
+	case 3: // text-mode compaction: lands on this or a smaller size
 		class = "letters"
 		content = fromAlphabet(rng, "abcdefghijklmnopqrstuvwxyz", 1+rng.Intn(ncw))
 	default:
@@ -526,6 +533,35 @@ var c09OneDs = []c09OneD{
 // text the matching reader reports for that symbol.
 func c09OneDContent(rng *fw.Rand, ws *writerSpec) (toWriter, canonical string) {
 	c := ws.Gen(rng, false)
+	// contents beyond the writers table that the matching reader accepts by contract
+	if rng.Intn(3) == 0 {
+		switch ws.Name {
+		case "CODABAR": // full data alphabet, optionally explicit (also alternative) guards which the reader strips
+			data := fromAlphabet(rng, "0123456789-$:/.+", 2+rng.Intn(19))
+			switch rng.Intn(3) {
+			case 0:
+				return data, data
+			case 1:
+				return string("ABCD"[rng.Intn(4)]) + data + string("ABCD"[rng.Intn(4)]), data
+			}
+			return string("TN*E"[rng.Intn(4)]) + data + string("TN*E"[rng.Intn(4)]), data
+		case "CODE_128": // all of ASCII (control characters select code set A)
+			b := make([]byte, 1+rng.Intn(30))
+			for i := range b {
+				b[i] = byte(rng.Intn(0x80))
+			}
+			return string(b), string(b)
+		case "CODE_93": // full ASCII through the shift characters
+			b := make([]byte, 1+rng.Intn(20))
+			for i := range b {
+				b[i] = byte(rng.Intn(0x80))
+			}
+			return string(b), string(b)
+		case "ITF": // longer than the default allowed lengths is allowed too
+			d := digitsN(rng, 2*(8+rng.Intn(13)))
+			return d, d
+		}
+	}
 	if rng.Intn(4) == 0 {
 		// runs: keep the length and (where applicable) the alphabet, repeat characters
 		b := []byte(c)
@@ -678,21 +714,21 @@ func c09(c *fw.Ctx) {
 	c.Assume("only the single-format reader matching the writer is used (multi-format readers legitimately report UPC-A as EAN-13 etc.); Code 39 is read with the default (non-extended, no check digit) reader; ITF lengths 6..14 (the reader's default allowed lengths); Codabar >= 2 data characters")
 
 	// QR
-	nq := c.Pick(200, 10000) // symbols; version = 1 + (i*7)%40 visits every version equally
+	nq := c.Pick(400, 10000) // symbols; version = 1 + (i*7)%40 visits every version equally
 	for i := 0; i < nq; i++ {
 		i := i
 		v := 1 + (i*7)%40
 		c.Run(fmt.Sprintf("qr/v%02d/%d", v, i), func(r *fw.Rec) { c09QRCase(r, v, 12, i < 2) })
 	}
 	// Data Matrix
-	nd := c.Pick(150, 7500)
+	nd := c.Pick(300, 7500)
 	for i := 0; i < nd; i++ {
 		i := i
 		k := i % 30
-		c.Run(fmt.Sprintf("dm/%02d/%d", k, i), func(r *fw.Rec) { c09DMCase(r, k, 12, i < 2) })
+		c.Run(fmt.Sprintf("dm/%02d/%d", k, i), func(r *fw.Rec) { c09DMCase(r, k, i/30, 12, i < 2) })
 	}
 	// 1-D
-	no := c.Pick(40, 1000)
+	no := c.Pick(80, 1000)
 	for _, od := range c09OneDs {
 		od := od
 		for i := 0; i < no; i++ {
@@ -701,24 +737,24 @@ func c09(c *fw.Ctx) {
 		}
 	}
 
-	c.Floor("poses", int64(c.Pick(5000, 250000)))
-	c.Floor("qr_decoder_upright_ok", int64(c.Pick(150, 8000)))
-	c.Floor("qr_decoder_mirrored_ok", int64(c.Pick(150, 8000)))
-	c.Floor("QR_CODE_read_at_scale_ge3", int64(c.Pick(300, 15000)))
-	c.Floor("DATA_MATRIX_read_at_scale_ge3", int64(c.Pick(200, 10000)))
-	c.Floor("QR_CODE_mirrored_read", int64(c.Pick(100, 5000)))
-	c.Floor("QR_CODE_class_finder-like-bytes", int64(c.Pick(40, 2000)))
+	c.Floor("poses", int64(c.Pick(12000, 250000)))
+	c.Floor("qr_decoder_upright_ok", int64(c.Pick(300, 8000)))
+	c.Floor("qr_decoder_mirrored_ok", int64(c.Pick(300, 8000)))
+	c.Floor("QR_CODE_read_at_scale_ge3", int64(c.Pick(600, 15000)))
+	c.Floor("DATA_MATRIX_read_at_scale_ge3", int64(c.Pick(400, 10000)))
+	c.Floor("QR_CODE_mirrored_read", int64(c.Pick(200, 5000)))
+	c.Floor("QR_CODE_class_finder-like-bytes", int64(c.Pick(80, 2000)))
 	for v := 1; v <= 40; v++ {
-		c.Floor(fmt.Sprintf("QR_CODE_version_%02d", v), int64(c.Pick(3, 150)))
+		c.Floor(fmt.Sprintf("QR_CODE_version_%02d", v), int64(c.Pick(5, 150)))
 		c.Floor(fmt.Sprintf("QR_CODE_version_%02d_read_at_scale_ge3", v), 1)
 	}
 	for _, s := range dmref.Symbols() {
-		c.Floor(fmt.Sprintf("DATA_MATRIX_size_%dx%d", s.Rows, s.Cols), int64(c.Pick(3, 150)))
+		c.Floor(fmt.Sprintf("DATA_MATRIX_size_%dx%d", s.Rows, s.Cols), int64(c.Pick(5, 150)))
 		c.Floor(fmt.Sprintf("DATA_MATRIX_size_%dx%d_read_at_scale_ge3", s.Rows, s.Cols), 1)
 	}
 	for _, od := range c09OneDs {
-		c.Floor(od.name+"_rot180_read_with_orientation", int64(c.Pick(60, 1500)))
-		c.Floor(od.name+"_sideways_tryharder_read", int64(c.Pick(60, 1500)))
-		c.Floor(od.name+"_read", int64(c.Pick(150, 4000)))
+		c.Floor(od.name+"_rot180_read_with_orientation", int64(c.Pick(120, 1500)))
+		c.Floor(od.name+"_sideways_tryharder_read", int64(c.Pick(120, 1500)))
+		c.Floor(od.name+"_read", int64(c.Pick(300, 4000)))
 	}
 }
